@@ -285,6 +285,135 @@ pub struct Ev {
     pub detail: String,
     pub bytes_hex: String,
     pub harness_problem: bool,
+    /// the writer's bytes and, for a wrong value, the member path of the first difference
+    pub bytes: Vec<u8>,
+    pub diff: Option<String>,
+}
+
+/// dust-dds' deserializer with the reader type on `bytes`, judged like eval_value does
+fn probe_reader(rt: &Ty, rdt: dust_dds::xtypes::dynamic_type::DynamicType<'static>, wt: &Ty, v: &Val, bytes: &[u8]) -> crate::classify::Probe {
+    use crate::classify::Probe;
+    match dust_deserialize(rdt, bytes) {
+        Run::Ok(d) => match read_data(rt, &d) {
+            Ok(got) => match matches(rt, &got, wt, v) {
+                Ok(()) => Probe::Ok,
+                Err(e) => Probe::Wrong(e),
+            },
+            Err(_) => Probe::Other,
+        },
+        Run::Err(_) => Probe::Error,
+        Run::Panic(_) => Probe::Other,
+    }
+}
+
+/// The reader type with every MUTABLE union inside the members that only the reader has made FINAL
+/// (None if there is no such union).
+fn reader_only_unions_final(w: &Ty, r: &Ty) -> Option<Ty> {
+    fn conv(t: &Ty, changed: &mut bool) -> Ty {
+        match t {
+            Ty::Struct(s) => Ty::Struct(Rc::new(StructTy {
+                name: s.name.clone(),
+                ext: s.ext,
+                members: s.members.iter().map(|m| Member { ty: conv(&m.ty, changed), ..m.clone() }).collect(),
+            })),
+            Ty::Union(u) => {
+                if u.ext == Ext::Mutable {
+                    *changed = true;
+                }
+                Ty::Union(Rc::new(UnionTy {
+                    name: u.name.clone(),
+                    ext: if u.ext == Ext::Mutable { Ext::Final } else { u.ext },
+                    disc: u.disc.clone(),
+                    cases: u.cases.iter().map(|c| Case { ty: c.ty.as_ref().map(|x| conv(x, changed)), ..c.clone() }).collect(),
+                }))
+            }
+            Ty::Seq { elem, bound } => Ty::Seq { elem: Box::new(conv(elem, changed)), bound: *bound },
+            Ty::Arr { elem, len } => Ty::Arr { elem: Box::new(conv(elem, changed)), len: *len },
+            other => other.clone(),
+        }
+    }
+    let (ws, rs) = match (w, r) {
+        (Ty::Struct(a), Ty::Struct(b)) => (a, b),
+        _ => return None,
+    };
+    let mut changed = false;
+    let members = rs
+        .members
+        .iter()
+        .map(|m| {
+            if ws.members.iter().any(|wm| wm.id == m.id) {
+                m.clone()
+            } else {
+                Member { ty: conv(&m.ty, &mut changed), ..m.clone() }
+            }
+        })
+        .collect();
+    changed.then(|| Ty::Struct(Rc::new(StructTy { name: rs.name.clone(), ext: rs.ext, members })))
+}
+
+/// Verified root cause of a decode failure of this pair on this value (see classify.rs), or None.
+fn decode_failure_cause(
+    p: &Pair,
+    rdt: dust_dds::xtypes::dynamic_type::DynamicType<'static>,
+    v: &Val,
+    rep: Rep,
+    e: &Ev,
+    api_assignable: bool,
+) -> Option<&'static str> {
+    use crate::classify::{self, BytesFrom, DecodeCase, Probe};
+    if e.key.starts_with("decode_panic|") || e.bytes.len() < 4 {
+        return None;
+    }
+    // S6: the API calls a pair assignable that differs (only) in the members of a nested structure type
+    if p.expect_assignable == Some(false) && api_assignable && classify::differ_only_in_nested_struct_members(&p.w, &p.r) {
+        return Some(classify::S6);
+    }
+    if rep.ver() == Ver::X1 {
+        let pad = (e.bytes[3] & 3) as usize;
+        let r_appendable = matches!(&p.r, Ty::Struct(s) if s.ext == Ext::Appendable);
+        if !r_appendable || e.bytes.len() < 4 + pad {
+            return None;
+        }
+        let mut stripped = e.bytes[..e.bytes.len() - pad].to_vec();
+        stripped[3] &= !3;
+        // S4: the padding announced in the options is read as trailing members
+        if pad > 0 {
+            if let Probe::Ok = probe_reader(&p.r, rdt, &p.w, v, &stripped) {
+                return Some(classify::S4);
+            }
+        }
+        // S7: a trailing member the writer did not send is (or begins with) a MUTABLE union; at the end of
+        // the data its reader fails with InvalidId(0) instead of NotEnoughData. Experiment: the same
+        // bytes (without padding) and the reader type with only the extensibility of the unions inside
+        // the reader-only trailing members changed to FINAL decode correctly.
+        if e.key.starts_with("decode_fail|error:InvalidId") {
+            if let Some(r2) = reader_only_unions_final(&p.w, &p.r) {
+                if let Ok(rdt2) = guarded(|| build_type(&r2)) {
+                    if let Probe::Ok = probe_reader(&r2, rdt2, &p.w, v, &stripped) {
+                        return Some(classify::S7);
+                    }
+                }
+            }
+        }
+        return None;
+    }
+    let outcome = match (&e.diff, e.key.starts_with("decode_fail|error:")) {
+        (Some(d), _) => Probe::Wrong(d.clone()),
+        (None, true) => Probe::Error,
+        _ => Probe::Other,
+    };
+    classify::decode_cause(
+        &DecodeCase {
+            wt: &p.w,
+            wv: v,
+            rt: &p.r,
+            rep,
+            bytes: &e.bytes,
+            from: BytesFrom::DustWriter,
+            outcome,
+        },
+        &mut |other| probe_reader(&p.r, rdt, &p.w, v, other),
+    )
 }
 
 /// one (pair, value, rep): "ok", "skip:<why>", or "decode_fail|<class>"
@@ -305,6 +434,8 @@ pub fn eval_value(
         detail,
         bytes_hex: vcore::hex(b),
         harness_problem: hp,
+        bytes: b.to_vec(),
+        diff: None,
     };
     let data = match build_data(wdt, &p.w, v) {
         Ok(d) => d,
@@ -327,7 +458,10 @@ pub fn eval_value(
         Run::Ok(d) => match read_data(&p.r, &d) {
             Ok(got) => match matches(&p.r, &got, &p.w, v) {
                 Ok(()) => ev("ok".into(), String::new(), &bytes, false),
-                Err(e) => ev(format!("decode_fail|{}", class_of(&e)), format!("at {}", e), &bytes, false),
+                Err(e) => Ev {
+                    diff: Some(e.clone()),
+                    ..ev(format!("decode_fail|{}", class_of(&e)), format!("at {}", e), &bytes, false)
+                },
             },
             Err(e) => ev("decode_fail|ill_typed_result".into(), e, &bytes, false),
         },
@@ -378,22 +512,6 @@ fn pair_from_json(j: &Json) -> Result<Pair, String> {
         },
         xcdr1_ok: j.get("xcdr1_ok").and_then(|x| x.as_bool()).unwrap_or(false),
     })
-}
-
-/// closed cause classes by edit kind
-fn edit_cause(edit: &str) -> &'static str {
-    match edit {
-        "append" => "reader_has_more_trailing_members_reads_padding_or_nothing",
-        "truncate" => "reader_has_fewer_trailing_members",
-        "add" | "remove" | "reorder" | "add_remove_reorder" => "mutable_member_set_changed",
-        "nested_appendable_evolved" => "nested_appendable_evolved_dheader_ignored",
-        "nested_mutable_evolved" => "nested_mutable_evolved",
-        "nested_final_member_retyped" => "assignability_ignores_nested_types",
-        "member_retyped_incompatibly" => "member_retyped_incompatibly",
-        "extensibility_changed" => "extensibility_changed",
-        "same" => "identical_types",
-        _ => "unclassified",
-    }
 }
 
 fn ext_of(t: &Ty) -> &'static str {
@@ -515,14 +633,23 @@ fn eval_pair(rep: &mut Report, p: &Pair, values: &[Val], skip_sub: &dyn Fn(u64) 
             }
             continue;
         }
+        // verified root cause of the first failing value (classify.rs); anything else is unclassified
+        // and carries what the pair is (edit kind, extensibility)
+        let cause = match &first_fail {
+            Some((e, v)) => decode_failure_cause(p, rdt, v, r, e, asg),
+            None => None,
+        };
         for vd in verdicts {
-            // closed form: verdict x coarse failure kind x representation x edit class; panics are
-            // consequences of a mis-parse and are not split by edit kind
             let verdict = vd.split('|').next().unwrap_or("");
-            let sig = if vd.contains("decode_panic|") {
-                format!("type_evolution|decode_panicked|rep={}|cause=misparse_consequence", ver_name(r))
+            let sig = if let Some(site) = vd.split("decode_panic|").nth(1) {
+                format!("type_evolution|decode_panicked|rep={}|cause={}", ver_name(r), crate::classify::panic_cause(site))
             } else {
-                format!("type_evolution|{}|rep={}|cause={}", verdict, ver_name(r), edit_cause(p.edit))
+                let c = match cause {
+                    // S6 is a wrong API answer: it explains `assignable_but_undecodable` only
+                    Some(c) if c != crate::classify::S6 || verdict == "assignable_but_undecodable" => c.to_string(),
+                    _ => format!("unclassified|edit={}|ext={}", p.edit, ext_of(&p.w)),
+                };
+                format!("type_evolution|{}|rep={}|cause={}", verdict, ver_name(r), c)
             };
             let (detail, value, bytes) = match &first_fail {
                 Some((e, v)) => (format!("{} {}", e.key, e.detail), val_to_json(&p.w, v), e.bytes_hex.clone()),
@@ -613,7 +740,7 @@ pub fn run(a: &Cli) -> Report {
                 (_, Some((d, _))) => {
                     rep.eval();
                     rep.violation(
-                        format!("type_evolution|decode_killed_process|rep={}|cause=misparse_consequence", r.get("rep").and_then(|x| x.as_str()).map(|x| if x.starts_with("XCDR1") { "XCDR1" } else { "XCDR2" }).unwrap_or("XCDR2")),
+                        format!("type_evolution|decode_killed_process|rep={}|cause=unclassified", r.get("rep").and_then(|x| x.as_str()).map(|x| if x.starts_with("XCDR1") { "XCDR1" } else { "XCDR2" }).unwrap_or("XCDR2")),
                         format!("process died while decoding with the reader type: {}", d.detail()),
                         r.clone(),
                     );
@@ -656,7 +783,7 @@ pub fn run(a: &Cli) -> Report {
         rep.stat(&format!("decode:{}", death.class()), 1);
         rep.nontrivial(fnv_str(&format!("{}|{}|{}", p.edit, r.name(), death.class())));
         // is it the reader-type decode that dies, or already the plain round trip (C09)?
-        let sig = format!("type_evolution|decode_killed_process|rep={}|cause=misparse_consequence", ver_name(r));
+        let sig = format!("type_evolution|decode_killed_process|rep={}|cause=unclassified", ver_name(r));
         let v = values.get(vi).cloned();
         rep.violation(
             sig,
